@@ -247,7 +247,11 @@ func (fr *Frame) frameForKey(st *State, k string, allowed map[string][]string, a
 	for _, a := range allowed[k] {
 		conds = append(conds, "(not (= "+r+" "+a+"))")
 	}
-	return "(forall ((" + r + " Int)) (! (=> " + and(conds...) + " (= (select " + cur + " " + r + ") (select " + old + " " + r + "))) :pattern ((select " + cur + " " + r + "))))"
+	body := "(=> " + and(conds...) + " (= (select " + cur + " " + r + ") (select " + old + " " + r + ")))"
+	if !declaredHeapName(cur) {
+		return "(forall ((" + r + " Int)) " + body + ")" // not an atomic heap value: no usable pattern
+	}
+	return "(forall ((" + r + " Int)) (! " + body + " :pattern ((select " + cur + " " + r + "))))"
 }
 
 // frameAllowed: what the assigns clause permits (key -> references of the objects that may change; whole keys).
